@@ -24,6 +24,7 @@ import traceback
 import numpy as np
 
 VERIF = os.path.dirname(os.path.dirname(os.path.abspath(__file__)))
+OUT = os.environ.get("VERIF_OUT") or VERIF   # evidence/ and replays/ live here (scratch runs redirect it)
 
 
 class Violation(AssertionError):
@@ -279,12 +280,12 @@ def record_failure(prop, clause, case, known):
     exc = evaluate(clause, case, st, known)
     msg = "did not reproduce on direct replay (flaky)" if exc is None else "%s: %s" % (type(exc).__name__, exc)
     sig = sig_of(exc) if exc is not None else "flaky"
-    d = os.path.join(VERIF, "replays", prop)
+    d = os.path.join(OUT, "replays", prop)
     os.makedirs(d, exist_ok=True)
     h = case_hash(case)
     path = os.path.join(d, "%s-%s.json" % (clause.name, h))
     with open(path, "w") as f:
         json.dump({"property": prop, "clause": clause.name, "case": case,
                    "message": msg[:2000], "signature": sig}, f, indent=1, sort_keys=True, default=jdefault)
-    return {"clause": clause.name, "replay": os.path.relpath(path, VERIF), "message": msg[:600],
+    return {"clause": clause.name, "replay": path, "message": msg[:600],
             "signature": sig, "reproduced": exc is not None}
